@@ -20,8 +20,17 @@ Not decided (never asserted):
     residuals enter cov_residuals.
   * stored residuals on periods that were not fitted (NaN today) and in the presample (0 today); inf in the data.
   * interpret_span="long" (today identical to "short" because max_lag is not passed on), omit_missing=False on incomplete data.
-  * deviation=True simulations, resample(), get_acorr, orientation of autocovariances of order >= 1 (Gamma_i or its transpose,
-    consistently, is accepted), get_mean when exogenous variables are present (their contribution is ignored by definition here).
+  * deviation=True simulations, resample(), get_acorr, get_stability / get_max_abs_eigenvalue, orientation of autocovariances of
+    order >= 1 (Gamma_i or its transpose, consistently, is accepted), get_mean when exogenous variables are present (their
+    contribution is ignored by definition here), dof_correction when T_fit - k <= 0.
+
+Genuine defects on the pinned tree (known_findings.d/C18.json; a directed case for each runs first in every shard):
+  estimate:raised:AttributeError:intercept-false-c-is-none            _estimators.py:146
+  simulate:initial-condition-read-from-leads                          _invariants.py:93 (order >= 2)
+  simulate:raised:ValueError:exogenous-impact-not-companion-sized     _simulators.py:_simulate_exogenous_impact (order >= 2, n >= 2)
+  simulate:exogenous-impact-added-to-whole-companion-state(n=1)       same mechanism, n == 1: silent broadcast
+The two simulate defects are recognised by emulating exactly that mechanism in the oracle (emulate_known_simulate_defects); an
+output that differs from the correct recursion in any other way is reported as simulate:output-is-not-the-var-recursion.
 """
 
 from __future__ import annotations
